@@ -45,7 +45,7 @@ INPUTS = [
     ([0, 0, 0, 0, 0, 0, 0, 0], [1, 1, 1, 0, 0, 0, 0, 0]),
     ([2, 2, 0, 1, 1, 1, 1, 0], [2, 2, 2, 1, 1, 0, 0, 0]),
 ]
-NAMES = ["alpha", "beta-2", "subject_name", "pre0"]
+NAMES = ["alpha", " beta-2 ", "subject_name", "pre0"]
 CFG = {"input": "UNMATCHED_INSTANCE", "matcher": {"kind": "naive", "metric": "IOU", "thr": 0.5, "m2o": False}, "imetrics": ["DSC", "IOU"], "gmetrics": ["DSC"]}
 _EXPECTED = {}
 
@@ -221,6 +221,18 @@ def check(case, stats):
             raise Violation(f"deadlock: {e}")
         except sched.Stuck as e:
             raise H.HarnessError(str(e))
+        # no call may leave a lock behind: a later evaluate()/make_statistic() would block for ever
+        import panoptica.panoptica_aggregator as A
+        leaked = []
+        for name, obj in vars(A).items():
+            if isinstance(obj, sched.SchedLock):
+                if obj.real.acquire(False):
+                    obj.real.release()
+                else:
+                    leaked.append(name)
+        if leaked:
+            H.fresh_aggregator_locks()
+            raise Violation(f"lock(s) {leaked} still held after every call returned: the next call on this aggregator blocks for ever")
         ncoll = len([t for t in case["tasks"] if t["op"] == "evaluate"]) - len({t["subject"] for t in case["tasks"] if t["op"] == "evaluate"})
         stats.record(case, ctl.preempt_in_window >= 1,
                      [f"mode={case['mode']}", f"tasks={len(case['tasks'])}", f"schedule={case['schedule']['kind']}",
